@@ -24,4 +24,56 @@ def registeredDirectives : List String := ["abort", "acme_server", "basic_auth",
 /-- … and to RegisterGlobalOption (sorted) -/
 def registeredGlobalOptions : List String := ["acme_ca", "acme_ca_root", "acme_dns", "acme_eab", "admin", "auto_https", "cert_issuer", "cert_lifetime", "debug", "default_bind", "default_sni", "dns", "ech", "email", "events", "fallback_sni", "filesystem", "grace_period", "http_port", "https_port", "key_type", "local_certs", "log", "metrics", "ocsp_interval", "ocsp_stapling", "on_demand_tls", "order", "persist_config", "pki", "preferred_chains", "renew_interval", "servers", "shutdown_delay", "skip_install_trust", "storage", "storage_check", "storage_clean_interval"]
 
+/-- modules/caddyhttp/autohttps.go automaticHTTPSPhase1: every `range` statement in source order: (`sortedkeys`, m) for
+    `range slices.Sorted(maps.Keys(m))`, else (`plain`, the ranged expression) -/
+def autoHTTPSRanges : List (String × String) := [("plain", "srvNames"), ("plain", "srv.Routes"), ("plain", "route.MatcherSets"), ("plain", "matcherSet"), ("plain", "*hm"), ("plain", "serverDomainSet"), ("plain", "serverDomainSet"), ("plain", "srv.Listen"), ("plain", "serverDomainSet"), ("sortedkeys", "uniqueDomainsForCerts"), ("plain", "app.tlsApp.Automation.Policies"), ("plain", "ap.Subjects()"), ("sortedkeys", "redirDomains"), ("plain", "redirDomains[domain]"), ("sortedkeys", "domainsByAddr"), ("sortedkeys", "redirServers"), ("plain", "srvNames")]
+
+/-- modules/caddyhttp/fileserver/staticfiles.go: the literals of `var defaultIndexNames` -/
+def defaultIndexNames : List String := ["index.html", "index.txt"]
+
+/-- every call of a Replacer's ReplaceAll / ReplaceKnown / ReplaceOrErr / ReplaceFunc in the consumers C18 models
+    (map.go, headers.go, rewrite.go, vars.go, staticresp.go), in source order: (file, function, method, first argument) -/
+def replacerCallSites : List (String × String × String × String) := [
+  ("map.go", "ServeHTTP", "ReplaceAll", "h.Source"),
+  ("map.go", "ServeHTTP", "ReplaceAll", "outputStr"),
+  ("map.go", "ServeHTTP", "ReplaceAll", "h.Defaults[destIdx]"),
+  ("headers.go", "ApplyTo", "ReplaceKnown", "fieldName"),
+  ("headers.go", "ApplyTo", "ReplaceKnown", "fieldName"),
+  ("headers.go", "ApplyTo", "ReplaceKnown", "v"),
+  ("headers.go", "ApplyTo", "ReplaceKnown", "fieldName"),
+  ("headers.go", "ApplyTo", "ReplaceKnown", "vals[i]"),
+  ("headers.go", "ApplyTo", "ReplaceKnown", "fieldName"),
+  ("headers.go", "ApplyTo", "ReplaceKnown", "fieldName"),
+  ("headers.go", "ApplyTo", "ReplaceKnown", "r.Search"),
+  ("headers.go", "ApplyTo", "ReplaceKnown", "r.Replace"),
+  ("headers.go", "ApplyTo", "ReplaceKnown", "r.Search"),
+  ("headers.go", "ApplyTo", "ReplaceKnown", "r.Replace"),
+  ("rewrite.go", "Rewrite", "ReplaceAll", "rewr.Method"),
+  ("rewrite.go", "Rewrite", "ReplaceAll", "path"),
+  ("rewrite.go", "Rewrite", "ReplaceAll", "frag"),
+  ("rewrite.go", "Rewrite", "ReplaceAll", "rewr.StripPathPrefix"),
+  ("rewrite.go", "Rewrite", "ReplaceAll", "rewr.StripPathSuffix"),
+  ("rewrite.go", "buildQueryString", "ReplaceFunc", "comp"),
+  ("rewrite.go", "do", "ReplaceAll", "rep.Find"),
+  ("rewrite.go", "do", "ReplaceAll", "rep.Replace"),
+  ("rewrite.go", "do", "ReplaceAll", "rep.Replace"),
+  ("rewrite.go", "do", "ReplaceAll", "renameParam.Key"),
+  ("rewrite.go", "do", "ReplaceAll", "renameParam.Val"),
+  ("rewrite.go", "do", "ReplaceAll", "setParam.Key"),
+  ("rewrite.go", "do", "ReplaceAll", "setParam.Val"),
+  ("rewrite.go", "do", "ReplaceAll", "addParam.Key"),
+  ("rewrite.go", "do", "ReplaceAll", "addParam.Val"),
+  ("rewrite.go", "do", "ReplaceAll", "replaceParam.Key"),
+  ("rewrite.go", "do", "ReplaceKnown", "replaceParam.Search"),
+  ("rewrite.go", "do", "ReplaceKnown", "replaceParam.Replace"),
+  ("rewrite.go", "do", "ReplaceAll", "deleteParam"),
+  ("vars.go", "ServeHTTP", "ReplaceAll", "k"),
+  ("vars.go", "ServeHTTP", "ReplaceAll", "valStr"),
+  ("vars.go", "MatchWithError", "ReplaceAll", "v"),
+  ("staticresp.go", "ServeHTTP", "ReplaceAll", "field"),
+  ("staticresp.go", "ServeHTTP", "ReplaceAll", "vals[i]"),
+  ("staticresp.go", "ServeHTTP", "ReplaceKnown", "s.Body"),
+  ("staticresp.go", "ServeHTTP", "ReplaceAll", "codeStr")
+]
+
 end CaddyModel.Gen
